@@ -35,19 +35,20 @@ type c08Client struct {
 }
 
 type c08Env struct {
-	ctx     *Ctx
-	be      *fb.Backend
-	env     *px.Env
-	cs      []c08Client
-	n       int
-	ring    []int
-	cursor  int
-	seq     int
-	stream  int16
-	cached  map[string]bool   // statement text -> the proxy saw its PREPARE succeed
-	ids     map[string][]byte // statement text -> id
-	prepBad map[int]bool      // hosts refusing PREPARE
-	detail  string
+	ctx         *Ctx
+	be          *fb.Backend
+	env         *px.Env
+	cs          []c08Client
+	n           int
+	ring        []int
+	cursor      int
+	seq         int
+	stream      int16
+	cached      map[string]bool   // statement text -> the proxy saw its PREPARE succeed
+	ids         map[string][]byte // statement text -> id
+	prepBad     map[int]bool      // hosts refusing PREPARE
+	payloadNext bool              // the next frame sent carries a custom payload
+	detail      string
 }
 
 func (e *c08Env) close() {
@@ -87,7 +88,11 @@ func (e *c08Env) sendFlags(ci int, msg message.Message, tracing bool) (int16, *p
 		if c.comp != "" {
 			f.SetCompress(true)
 		}
+		if e.payloadNext {
+			f.SetCustomPayload(map[string][]byte{"origin": []byte("c08")})
+		}
 	})
+	e.payloadNext = false
 	if tracing {
 		// set in the encoded header: the reference encoder counts a tracing id into the
 		// length of a request that asks for tracing
@@ -174,6 +179,12 @@ func newC08Env(ctx *Ctx, hosts []int, topo []int, opt func(*proxy.Config)) *c08E
 
 // prepare sends PREPARE through the proxy; true if a PREPARED result came back
 func (e *c08Env) prepare(ci int, q string) bool {
+	// now and then with a custom payload (legal from version 4 on): the frame the proxy caches, and re-sends to a host
+	// that does not know the statement, announces it in its header
+	if e.cs[ci].ver >= 4 && e.ctx.Rng.Intn(3) == 0 {
+		e.payloadNext = true
+		e.ctx.Count("prepare-with-custom-payload")
+	}
 	_, f := e.send(ci, &message.Prepare{Query: q})
 	e.cursor++
 	if f == nil || f.Opcode != byte(primitive.OpCodeResult) {
